@@ -129,7 +129,7 @@ theorem wait_block_zero_all (fn : Fn) (hw : fn.isWait = true) (args : List Val) 
     Blk.eval? (.call (forgeFn fn) args sr n) = some (List.replicate n 0) := by
   refine ⟨forgeFn_wait fn hw, ?_⟩
   rw [forgeFn_wait fn hw]
-  exact Blk.eval?_zeros _ _ _ _ rfl
+  exact Blk.evalZeros _ _ _ _ rfl
 
 example : ({ special := true, name := "waituntil", qual := "anything", params := ["x"], shape := .call } : Fn).isWait = true := by
   decide
